@@ -165,6 +165,56 @@ Definition agg_step (rqs : list areq) (st : astate) (i : nat) : astate :=
 Definition aggregate (rqs : list areq) (gs : list grp) : astate :=
   fold_left (agg_step rqs) (seq 0 (length rqs)) (mkS (map a_id rqs) (seq 0 (length rqs)) gs).
 
+(* PROPOSED REPAIR of K2 / K3 -- not the code that is in /repo today:
+   same_disj compares the *shape* of the groups (for every group of r1 a group of r2 with the same other members, with
+   multiplicity), and every group naming the absorbing request's old id is deleted (no skipping).
+   Python: sorted(sorted(set(d.members) - {r}) for d in groups of r) compared for equality. *)
+Fixpoint rid_remove_all (x : rid) (l : list rid) : list rid :=
+  match l with [] => [] | y :: t => if zlist_eqb x y then rid_remove_all x t else y :: rid_remove_all x t end.
+Definition shape (r : rid) (gs : list grp) : list (list rid) :=
+  map (fun d => rid_remove_all r (members d)) (filter (fun d => rid_mem r (members d)) gs).
+Fixpoint take_seteq (a : list rid) (l : list (list rid)) : option (list (list rid)) :=
+  match l with
+  | [] => None
+  | b :: t => if set_eq a b then Some t else match take_seteq a t with Some t' => Some (b :: t') | None => None end
+  end.
+Fixpoint ms_eq (l1 l2 : list (list rid)) : bool :=
+  match l1 with
+  | [] => match l2 with [] => true | _ => false end
+  | a :: t => match take_seteq a l2 with Some l2' => ms_eq t l2' | None => false end
+  end.
+Definition same_disj_fixed (r1 r2 : rid) (gs : list grp) : bool :=
+  match in_some r1 gs, in_some r2 gs with
+  | true, true => ms_eq (shape r1 gs) (shape r2 gs)
+  | false, false => true
+  | _, _ => false
+  end.
+Fixpoint agg_find_fixed (rqs : list areq) (st : astate) (i : nat) (cand : list nat) : option nat :=
+  match cand with
+  | [] => None
+  | j :: t =>
+      let ri := id_at (s_ids st) i in
+      let rj := id_at (s_ids st) j in
+      let ai := nth i rqs (mkA [] 0 false) in
+      let aj := nth j rqs (mkA [] 0 false) in
+      if negb (zlist_eqb ri rj) && (a_sig ai =? a_sig aj) && same_disj_fixed ri rj (s_groups st) && a_mode aj
+      then Some j else agg_find_fixed rqs st i t
+  end.
+Definition agg_step_fixed (rqs : list areq) (st : astate) (i : nat) : astate :=
+  match agg_find_fixed rqs st i (s_local st) with
+  | None => st
+  | Some j =>
+      let ri := id_at (s_ids st) i in
+      let old := id_at (s_ids st) j in
+      let new := old ++ ri in
+      let gs1 := map (fun d => if rid_mem ri (members d)
+                               then mkG (gid d) (remove_first ri (members d) ++ [new]) else d) (s_groups st) in
+      mkS (set_nth j new (s_ids st)) (filter (fun k => negb (Nat.eqb k i)) (s_local st))
+          (filter (fun d => negb (rid_mem old (members d))) gs1)
+  end.
+Definition aggregate_fixed (rqs : list areq) (gs : list grp) : astate :=
+  fold_left (agg_step_fixed rqs) (seq 0 (length rqs)) (mkS (map a_id rqs) (seq 0 (length rqs)) gs).
+
 (* ids of the requests that are left (local_list), in order *)
 Definition final_ids (st : astate) : list rid := map (id_at (s_ids st)) (s_local st).
 
